@@ -64,8 +64,10 @@ pub fn gen_op(r: &mut Rng, kind: OpKind) -> Op {
         ItWrite => vec![slot(r), r.below(9)],
         ItFold | ItRfold => vec![slot(r), r.below(3)],
         ItCollect => vec![slot(r), r.below(4), len_idx(r)],
-        Map | Fold => vec![slot(r), r.below(3), r.below(4)],
-        Zip => vec![slot(r), r.below(3), r.below(3), r.below(10)],
+        Map => vec![slot(r), r.below(3), r.below(6)],
+        Fold => vec![slot(r), r.below(3), r.below(4)],
+        // a[4]: 0 = both operands of the run's element kind, 1/2 = plain partner of another type on the left/right
+        Zip => vec![slot(r), r.below(3), r.below(3), r.below(10), r.pick(&[0u32, 0, 0, 1, 2])],
         Append => vec![slot(r), r.below(2)],
         Pop => vec![slot(r), r.below(2), r.below(2)],
         Split => vec![slot(r), r.below(9)],
@@ -248,11 +250,89 @@ fn fault_k(r: &mut Rng) -> u32 {
     }
 }
 
-fn moves_trace(r: &mut Rng, n_ops: u32, table: &[(OpKind, u32)]) -> Vec<Op> {
-    (0..n_ops).map(|_| {
+/// Abstract occupancy of the pool, tracked by the generator so that it mostly draws operations
+/// whose operand exists. It is only an approximation (panics, evictions and failed conversions
+/// are not modelled); operations are total, so a wrong guess is a harmless no-op.
+#[derive(Default, Clone, Copy)]
+pub struct Abs {
+    arrs: u8,
+    its: u8,
+    bxs: u8,
+    vecs: u8,
+    nests: u8,
+    vits: u8,
+    loose: u8,
+}
+
+impl Abs {
+    fn ready(&self, k: OpKind, args: &[u32; N_ARGS]) -> bool {
+        match k {
+            CloneArr | NativeRoundtrip | TupleRoundtrip | IntoIter | Append | Pop | Split | Remove | Unflatten | ArrToVec | ArrBox | ConsumerRun | SerRecord | SerReal => self.arrs > 0,
+            Map | Fold => if args[2] % (if k == Map { 6 } else { 4 }) == 3 { self.bxs > 0 } else { self.arrs > 0 },
+            Zip => if args[3] % 10 == 9 { self.bxs > 0 } else { self.arrs > 0 },
+            Concat => self.arrs > 1,
+            ItNext | ItNextBack | ItNth | ItNthBack | ItLen | ItWrite | ItClone | ItFold | ItRfold | ItCount | ItLast | ItDebug | ItCollect => self.its > 0,
+            Flatten => self.nests > 0,
+            Unbox | BxToVec | BxClone | BxIntoIter => self.bxs > 0,
+            VecToArr | VecToBx => self.vecs > 0,
+            VitNext => self.vits > 0,
+            ReleaseLoose => self.loose > 0,
+            DropObj => match args[0] % 6 { 0 => self.arrs > 0, 1 => self.its > 0, 2 => self.bxs > 0, 3 => self.vecs > 0, 4 => self.nests > 0, _ => self.vits > 0 },
+            _ => true,
+        }
+    }
+    fn apply(&mut self, k: OpKind, args: &[u32; N_ARGS]) {
+        fn inc(x: &mut u8, cap: u8) { if *x < cap { *x += 1 } }
+        fn dec(x: &mut u8) { if *x > 0 { *x -= 1 } }
+        match k {
+            Generate | DefaultArr | CloneArr | BuilderRun | DeScripted | DeReal => inc(&mut self.arrs, 3),
+            Collect => if (args[3] >> 1) % 6 >= 3 { inc(&mut self.bxs, 3) } else { inc(&mut self.arrs, 3) },
+            IntoIter => { dec(&mut self.arrs); inc(&mut self.its, 3) }
+            ItClone => inc(&mut self.its, 3),
+            ItNext | ItNextBack | ItNth | ItNthBack | ItWrite | Pop | Remove => inc(&mut self.loose, 12),
+            ItFold | ItRfold | ItCount | ItLast => { dec(&mut self.its); inc(&mut self.loose, 12) }
+            ItCollect => { dec(&mut self.its); inc(&mut self.arrs, 3) }
+            Split => inc(&mut self.arrs, 3),
+            Concat => dec(&mut self.arrs),
+            Flatten => { dec(&mut self.nests); inc(&mut self.arrs, 3) }
+            Unflatten => { dec(&mut self.arrs); inc(&mut self.nests, 2) }
+            NestGen => inc(&mut self.nests, 2),
+            ArrToVec => { dec(&mut self.arrs); inc(&mut self.vecs, 3) }
+            ArrBox => { dec(&mut self.arrs); inc(&mut self.bxs, 3) }
+            Unbox => { dec(&mut self.bxs); inc(&mut self.arrs, 3) }
+            VecMake => inc(&mut self.vecs, 3),
+            VecToArr => { dec(&mut self.vecs); inc(&mut self.arrs, 3) }
+            VecToBx => { dec(&mut self.vecs); inc(&mut self.bxs, 3) }
+            BxToVec => { dec(&mut self.bxs); inc(&mut self.vecs, 3) }
+            BoxedGenerate | DefaultBoxed | BxClone | BoxArrMacro => inc(&mut self.bxs, 3),
+            BxIntoIter => { dec(&mut self.bxs); inc(&mut self.vits, 2) }
+            ConsumerRun => { dec(&mut self.arrs); inc(&mut self.loose, 12) }
+            ReleaseLoose => dec(&mut self.loose),
+            DropObj => match args[0] % 6 { 0 => dec(&mut self.arrs), 1 => dec(&mut self.its), 2 => dec(&mut self.bxs), 3 => dec(&mut self.vecs), 4 => dec(&mut self.nests), _ => dec(&mut self.vits) },
+            Fold => if args[2] % 4 == 0 { dec(&mut self.arrs) } else if args[2] % 4 == 3 { dec(&mut self.bxs) },
+            _ => {}
+        }
+    }
+}
+
+/// draw an operation whose operand (probably) exists
+fn next_op(r: &mut Rng, abs: &mut Abs, table: &[(OpKind, u32)]) -> Op {
+    for _ in 0..6 {
         let k = weighted(r, table);
-        gen_op(r, k)
-    }).collect()
+        let op = gen_op(r, k);
+        if abs.ready(k, &op.args) {
+            abs.apply(k, &op.args);
+            return op;
+        }
+    }
+    let op = gen_op(r, Generate);
+    abs.apply(Generate, &op.args);
+    op
+}
+
+fn moves_trace(r: &mut Rng, n_ops: u32, table: &[(OpKind, u32)]) -> Vec<Op> {
+    let mut abs = Abs::default();
+    (0..n_ops).map(|_| next_op(r, &mut abs, table)).collect()
 }
 
 /// make the array / box an operation will act on right before it, so that the operand length
@@ -299,7 +379,18 @@ pub fn gen_trace(prop: Prop, seed: u64) -> Trace {
         Prop::C03 => {
             let elem = elem_kind(r, 65, 20, 15);
             let n = r.range(3, 40);
-            (elem, moves_trace(r, n, MOVES))
+            let mut ops = moves_trace(r, n, MOVES);
+            for op in ops.iter_mut() {
+                // rejected constructions are panic-free histories too: through the fallible entry
+                // points a source may deliver any count, under any truthful hint
+                if op.kind == Collect && r.chance(1, 3) {
+                    let nn = LENS[op.args[0] as usize] as u32;
+                    op.args[1] = r.below(nn + 4);
+                    op.args[2] = r.pick(&[1u32, 2, 5, 6]);
+                    op.args[3] = r.pick(&[0u32, 3]) << 1;
+                }
+            }
+            (elem, ops)
         }
         Prop::C04 => {
             let elem = elem_kind(r, 70, 20, 10);
@@ -333,9 +424,10 @@ pub fn gen_trace(prop: Prop, seed: u64) -> Trace {
             let elem = elem_kind(r, 75, 25, 0);
             let mut ops = Vec::new();
             let n = r.range(3, 24);
+            let mut abs = Abs::default();
             for _ in 0..n {
-                let kind = weighted(r, MOVES);
-                let mut op = gen_op(r, kind);
+                let mut op = next_op(r, &mut abs, MOVES);
+                let kind = op.kind;
                 // error paths that tear down partially built values
                 if kind == Collect && r.chance(1, 2) {
                     let nn = LENS[op.args[0] as usize] as u32;
@@ -386,9 +478,10 @@ pub fn gen_trace(prop: Prop, seed: u64) -> Trace {
             let elem = elem_kind(r, 50, 10, 40);
             let mut ops = Vec::new();
             let n = r.range(2, 12);
+            let mut abs = Abs::default();
             for _ in 0..n {
-                let kind = weighted(r, CALLBACK_OPS);
-                let mut op = gen_op(r, kind);
+                let mut op = next_op(r, &mut abs, CALLBACK_OPS);
+                let kind = op.kind;
                 if r.chance(1, 2) {
                     with_fresh_operand(r, &mut ops, &mut op);
                 }
@@ -416,9 +509,10 @@ pub fn gen_trace(prop: Prop, seed: u64) -> Trace {
             let elem = elem_kind(r, 60, 25, 15);
             let mut ops = Vec::new();
             let n = r.range(3, 20);
+            let mut abs = Abs::default();
             for _ in 0..n {
-                let kind = weighted(r, HEAP_OPS);
-                let mut op = gen_op(r, kind);
+                let mut op = next_op(r, &mut abs, HEAP_OPS);
+                let kind = op.kind;
                 if kind == Collect {
                     let nn = LENS[op.args[0] as usize] as u32;
                     op.args[3] = (3 + r.below(3)) << 1;
@@ -444,9 +538,10 @@ pub fn gen_trace(prop: Prop, seed: u64) -> Trace {
             let elem = elem_kind(r, 65, 15, 20);
             let mut ops = Vec::new();
             let n = r.range(2, 10);
+            let mut abs = Abs::default();
             for _ in 0..n {
-                let kind = weighted(r, SERDE_OPS);
-                let mut op = gen_op(r, kind);
+                let mut op = next_op(r, &mut abs, SERDE_OPS);
+                let kind = op.kind;
                 match kind {
                     DeScripted => {
                         let nn = LENS[op.args[0] as usize] as u32;
